@@ -16,6 +16,8 @@ structure RtSnap where
   padding : Nat
   normal : Nat
   blockingNs : Nat
+  zeroedA : Bool
+  zeroedB : Bool
   deriving Repr, DecidableEq, Inhabited
 
 structure Snap where
@@ -27,8 +29,6 @@ structure Snap where
   blockingStarted : Int
   blockingActive : Bool
   signalPending : Option SignalTarget
-  zeroedA : Bool
-  zeroedB : Bool
   deriving Repr, DecidableEq, Inhabited
 
 /-- outcome of one operation -/
@@ -63,9 +63,10 @@ structure FwTrace where
 def Fw.snap {σ} (s : Fw σ) : Snap :=
   { rts := s.rt.map fun r =>
       { state := r.currentState, limit := r.stateLimit, ctrA := r.counterA, ctrB := r.counterB,
-        padding := r.acct.paddingSent, normal := r.acct.normalSent, blockingNs := r.acct.blockingDur },
+        padding := r.acct.paddingSent, normal := r.acct.normalSent, blockingNs := r.acct.blockingDur,
+        zeroedA := r.zeroedA, zeroedB := r.zeroedB },
     now := s.g.now, normal := s.g.normalSent, padding := s.g.paddingSent, blockingNs := s.g.blockingDur,
     blockingStarted := s.g.blockingStarted, blockingActive := s.g.blockingActive,
-    signalPending := s.signalPending, zeroedA := s.zeroedA, zeroedB := s.zeroedB }
+    signalPending := s.signalPending }
 
 end Mb
